@@ -166,17 +166,50 @@ def is_st(spec):
 
 # ---------------------------------------------------------------- wrapped arrays and operation histories
 def gen_wrap_opts(rng):
-    return {"ntime": rng.choice([None, None, None, 1, 2]), "nband": rng.choice([None, None, None, 1, 3]),
-            "nodata": rng.choice([None, None, -1, 255]),
-            "name": rng.choice(["spatial_ref"] * 6 + ["crs", None]),
-            "dask": rng.random() < 0.35, "dtype": rng.choice(["int16", "float32", "uint8", "float64"]),
-            "user": rng.choice([{}, {}, {"foo": "bar"}, {"units": "K", "scale": 2}])}
+    o = {"ntime": rng.choice([None, None, None, 1, 2]), "nband": rng.choice([None, None, None, 1, 3]),
+         "nodata": rng.choice([None, None, -1, 255]),
+         "name": rng.choice(["spatial_ref"] * 6 + ["crs", None]),
+         "dask": rng.random() < 0.35, "dtype": rng.choice(["int16", "float32", "uint8", "float64"]),
+         "user": rng.choice([{}, {}, {"foo": "bar"}, {"units": "K", "scale": 2}])}
+    if rng.random() < 0.25:
+        o = gen_axis_opts(rng, o)
+    return o
+
+
+def gen_axis_opts(rng, opts):
+    """explicit axis= of wrap_xr in every legal combination with time= (None / scalar / list) and a band axis:
+    axis=1 for [T,Y,X(,B)] stacks without time labels, with a list, with a scalar (T=1), a 2-d image promoted by
+    axis=1; axis=0 for [Y,X(,B)] images with a scalar time stamp or none."""
+    axis = rng.choice([0, 1, 1])
+    o = dict(opts)
+    o["axis"] = axis
+    if axis == 1:
+        o["ntime"] = rng.choice([1, 1, 2, 3])
+        o["time"] = rng.choice([None, None, "list", "scalar"] if o["ntime"] == 1 else [None, None, "list"])
+        o["promote2d"] = o["ntime"] == 1 and o["nband"] is None and rng.random() < 0.5
+    else:
+        o["ntime"] = None
+        o["time"] = rng.choice([None, "scalar", "scalar"])
+        o["promote2d"] = False
+    return o
 
 
 def build_wrapped(spec, opts):
     from odc.geo.xr import wrap_xr
     g = build_geobox(spec)
     ny, nx = spec["shape"]
+    if "axis" in opts:
+        shape = ((opts["ntime"],) if opts["axis"] == 1 and not opts["promote2d"] else ()) + (ny, nx) \
+            + ((opts["nband"],) if opts["nband"] else ())
+        if opts["dask"]:
+            import dask.array as da
+            im = da.zeros(shape, dtype=opts["dtype"], chunks=tuple(max(1, (n + 1) // 2) for n in shape)) + 1
+        else:
+            im = np.ones(shape, dtype=opts["dtype"])
+        time = {None: None, "scalar": "2020-01-01",
+                "list": [f"2020-01-{i + 1:02d}" for i in range(opts["ntime"] or 1)]}[opts["time"]]
+        xx = wrap_xr(im, g, time=time, nodata=opts["nodata"], crs_coord_name=opts["name"], axis=opts["axis"], **opts["user"])
+        return g, xx
     shape = ((opts["ntime"],) if opts["ntime"] else ()) + (ny, nx) + ((opts["nband"],) if opts["nband"] else ())
     if opts["dask"]:
         import dask.array as da
@@ -369,6 +402,13 @@ def labels_report(spec, xx, iy, ix):
 def p_roundtrip(spec, opts):
     g, xx = build_wrapped(spec, opts)
     ny, nx = spec["shape"]
+    if "axis" in opts:
+        want_dims = (("time",) if opts["axis"] == 1 else ()) + spec_dims(spec) + (("band",) if opts["nband"] else ())
+        want_shape = ((opts["ntime"],) if opts["axis"] == 1 else ()) + (ny, nx) + ((opts["nband"],) if opts["nband"] else ())
+        if tuple(xx.dims) != want_dims or tuple(xx.shape) != want_shape:
+            return False, f"wrap_xr(axis={opts['axis']}, time={opts['time']}): dims {xx.dims} shape {xx.shape}, expected {want_dims} {want_shape}"
+        if opts["time"] is not None and "time" not in xx.coords:
+            return False, f"wrap_xr(axis={opts['axis']}, time={opts['time']}): no time coordinate"
     if labels_exact(spec, xx, None, None, list(range(ny)), list(range(nx))):
         bad = labels_report(spec, xx, list(range(ny)), list(range(nx)))
         if bad:
@@ -541,7 +581,9 @@ GRID_OPTS = {
     # destination CRS -> option sets for compute_output_geobox; power-of-two resolutions with edge/centre
     # snapping give dyadic grids (exact comparison of all six coefficients), shape=/tight= do not
     "epsg:3857": [{"resolution": 2048}, {"resolution": 2000}, {"resolution": 4096, "anchor": "center"}, {"shape": [3, 4]},
-                  {"resolution": 8192, "tight": True}, {"resolution": 2048, "anchor": "floating"}],
+                  {"resolution": 8192, "tight": True}, {"resolution": 2048, "anchor": "floating"},
+                  {"resolution": 2048, "tol": 0.3}, {"round_resolution": True}, {"round_resolution": "to:4096"},
+                  {"resolution": "fit", "tol": 0.2}, {"resolution": 2048, "anchor": [0.25, 0.5]}, {"shape": 5}],
     "epsg:32633": [{"resolution": 1024}, {"resolution": 3000}, {"shape": [2, 5]}, {"resolution": 2048, "anchor": "center"}],
     "epsg:4326": [{"resolution": 0.25}, {"resolution": 0.125, "anchor": "center"}, {"shape": [4, 3]}],
 }
@@ -556,9 +598,7 @@ def p_reproject_opts(rc, gopts):
     import xarray as xr
     src, _ = build_reproject_case(rc)
     how = rc["dst"]["crs"]
-    kw = dict(gopts)
-    if "shape" in kw:
-        kw["shape"] = tuple(kw["shape"])
+    kw = decode_gopts(gopts)
     want = src.odc.output_geobox(how, **kw)
     out = src.odc.reproject(how, **kw)
     wkey = S.box_of(want)
@@ -575,9 +615,14 @@ def p_reproject_opts(rc, gopts):
         if got[1:3] != wkey[1:3] or got[-1] != wkey[-1]:
             return False, (f"{n}: reproject({how!r}, **{gopts}) recovered shape {got[1:3]} crs {got[-1]}, "
                            f"requested grid output_geobox(...) has shape {wkey[1:3]} crs {wkey[-1]}")
-        if "shape" in gopts and list(got[1:3]) != list(gopts["shape"]):
+        rr = gopts.get("round_resolution")
+        if rr is True and not (got[3][0].denominator == 1 and got[3][4].denominator == 1):
+            return False, f"{n}: round_resolution=True not honoured: pixel size {float(got[3][0])} x {float(got[3][4])}"
+        if isinstance(rr, str) and (abs(got[3][0]), abs(got[3][4])) != (S.F(float(rr[3:])),) * 2:
+            return False, f"{n}: round_resolution -> {rr[3:]} not honoured: pixel size {float(got[3][0])} x {float(got[3][4])}"
+        if isinstance(gopts.get("shape"), list) and list(got[1:3]) != list(gopts["shape"]):
             return False, f"{n}: shape= {gopts['shape']} not honoured: {got[1:3]}"
-        if "resolution" in gopts and exact and (abs(got[3][0]), abs(got[3][4])) != (S.F(gopts["resolution"]),) * 2:
+        if isinstance(gopts.get("resolution"), (int, float)) and exact and (abs(got[3][0]), abs(got[3][4])) != (S.F(gopts["resolution"]),) * 2:
             return False, f"{n}: resolution= {gopts['resolution']} not honoured: pixel size {float(got[3][0])} x {float(got[3][4])}"
         if exact and got != wkey:
             return False, f"{n}: recovered {got}, requested grid {wkey}"
@@ -588,6 +633,127 @@ def p_reproject_opts(rc, gopts):
     return (not bad), ("stale spatial attributes survive: " + ", ".join(bad)) if bad else "ok"
 
 
+def decode_gopts(gopts):
+    """JSON-able option sets -> keyword arguments of xr_reproject / output_geobox"""
+    from odc.geo import xy_
+    kw = dict(gopts)
+    if "shape" in kw and isinstance(kw["shape"], list):
+        kw["shape"] = tuple(kw["shape"])
+    if isinstance(kw.get("anchor"), list):
+        kw["anchor"] = xy_(*kw["anchor"])
+    rr = kw.get("round_resolution")
+    if isinstance(rr, str) and rr.startswith("to:"):
+        val = float(rr[3:])
+        kw["round_resolution"] = lambda res, units: val
+    return kw
+
+
+def snapped(v, t):
+    """integer nearest to v when within t, else None (the meaning of tol: that much of a pixel may be ignored)"""
+    r = round(v)
+    return r if abs(v - r) < t else None
+
+
+def p_reproject_grid(gc):
+    """Same-CRS reprojection onto a new grid, how = CRS with EVERY output-grid option xr_reproject accepts.  The source
+    footprint padded by 0.9 source pixel (what compute_output_geobox encloses) is known exactly, so the requested grid
+    follows from the MEANING of the options, computed here in Fractions:
+      resolution=R -> pixel size exactly R;  shape=(h, w) -> exactly that shape;
+      anchor edge/center/(ax, ay) -> origin/R - offset is an integer;  tight / floating -> origin = padded corner;
+      tol=t -> on every side the grid may fall short of the padded footprint by at most t pixels and is the SMALLEST
+               such grid (one pixel less on a side would fall short by more than t).
+    The recovered GeoBox of the DataArray / every Dataset variable must satisfy this and must equal
+    xx.odc.output_geobox(how, **same options) exactly."""
+    import xarray as xr
+    from odc.geo.xr import wrap_xr
+    from affine import Affine
+    from odc.geo.geobox import GeoBox
+    crs = gc["crs"]
+    rs, x0, y1, ny, nx = unfr(gc["src_res"]), unfr(gc["x0"]), unfr(gc["y1"]), gc["shape"][0], gc["shape"][1]
+    sg = GeoBox((ny, nx), Affine(float(rs), 0, float(x0), 0, -float(rs), float(y1)), crs)
+    if gc["dask"]:
+        import dask.array as da
+        im = da.ones((ny, nx), dtype="int16", chunks=(max(1, ny // 2), max(1, nx // 2)))
+    else:
+        im = np.ones((ny, nx), dtype="int16")
+    xx = wrap_xr(im, sg, crs="stale")
+    src = xx if gc["container"] == "da" else xr.Dataset({"a": xx, "b": xx.astype("float32")})
+    kw = decode_gopts(gc["grid"])
+    out = src.odc.reproject(crs, **kw)
+    from odc.geo.xr import xr_zeros
+    hg = src.odc.output_geobox(crs, **kw)
+    helper = S.box_of(hg)
+    if not all(dyadic_small(v, 40) for v in helper[3]):
+        # arbitrary binary64 coefficients (shape=, tight=): the label round trip may differ in the last bit, so the
+        # reference is the same grid sent through the same round trip
+        helper = S.box_of(xr_zeros(hg, dtype="uint8").odc.geobox)
+    pad = Fraction(9, 10) * rs
+    L, Rr, B, T = x0 - pad, x0 + nx * rs + pad, y1 - ny * rs - pad, y1 + pad     # padded footprint, exact
+    t = Fraction(gc["grid"].get("tol", 0.01)).limit_denominator(10 ** 6)
+    objs = [("DataArray", out)] if gc["container"] == "da" else [("Dataset", out), ("a", out["a"]), ("b", out["b"])]
+    for n, o in objs:
+        got = S.box_of(o.odc.geobox)
+        if got is None:
+            return False, f"{n}: no geobox"
+        if got != helper:
+            return False, f"{n}: recovered {got[1:4]} but .odc.output_geobox({crs!r}, **{gc['grid']}) is {helper[1:4]}"
+        rows, cols, A = got[1], got[2], got[3]
+        px, py, ox, oy = A[0], -A[4], A[2], A[5]
+        if A[1] != 0 or A[3] != 0 or px <= 0 or py <= 0:
+            return False, f"{n}: output grid {A} is not north-up"
+        g = gc["grid"]
+        if "shape" in g and [rows, cols] != list(g["shape"]):
+            return False, f"{n}: shape={g['shape']} requested, got {rows}x{cols}"
+        if isinstance(g.get("resolution"), (int, float)) and "shape" not in g and (px, py) != (S.F(g["resolution"]),) * 2:
+            return False, f"{n}: resolution={g['resolution']} requested, pixel size {float(px)} x {float(py)}"
+        if g.get("resolution") == "same" and "shape" not in g and (px, py) != (rs, rs):
+            return False, f"{n}: resolution='same' requested, pixel size {float(px)} x {float(py)}, source {float(rs)}"
+        if "shape" in g:
+            continue    # the rest is about snapped grids of a given pixel size
+        floating = g.get("tight") or g.get("anchor") == "floating"
+        if floating:
+            if abs(ox - L) > px / 10 ** 6 or abs(oy - T) > py / 10 ** 6:
+                return False, f"{n}: tight/floating grid must start at the padded corner ({float(L)}, {float(T)}), starts at ({float(ox)}, {float(oy)})"
+        else:
+            a = g.get("anchor", "default")
+            offx, offy = {"default": (0, 0), "edge": (0, 0), "center": (Fraction(1, 2),) * 2}.get(a if isinstance(a, str) else "", None) \
+                or (S.F(a[0]), S.F(a[1]))
+            if (ox / px - offx).denominator != 1 or (oy / py - offy).denominator != 1:
+                return False, f"{n}: anchor={a}: origin ({float(ox)}, {float(oy)}) is not aligned (pixel {float(px)})"
+        # coverage up to tol, and minimality
+        sides = {"left": (L - ox) / px, "right": (ox + cols * px - Rr) / px, "top": (oy - T) / py, "bottom": (B - (oy - rows * py)) / py}
+        for side, slack in sides.items():      # slack >= 0: grid reaches beyond the padded footprint by that many pixels
+            if slack < -t - Fraction(1, 10 ** 6):
+                return False, (f"{n}: {side} edge falls short of the padded footprint by {float(-slack):.4f} pixel, more than tol={float(t)} "
+                               f"(grid {rows}x{cols} origin ({float(ox)}, {float(oy)}) pixel {float(px)}; options {g})")
+            if not floating and slack - 1 > -t + Fraction(1, 10 ** 6) and (cols if side in ("left", "right") else rows) > 1:
+                return False, (f"{n}: grid is not the smallest one: the {side} edge could move in by a pixel and still be within tol={float(t)} "
+                               f"(reaches {float(slack):.4f} pixel beyond the padded footprint; grid {rows}x{cols} origin ({float(ox)}, "
+                               f"{float(oy)}) pixel {float(px)}; options {g})")
+    bad = stale_attr_report(out)
+    return (not bad), ("stale spatial attributes survive: " + ", ".join(bad)) if bad else "ok"
+
+
+def gen_grid_case(rng, k):
+    """geometries in which the option matters: source pixels rs aligned (or offset by a known fraction) to a coarser
+    output grid R, so that the 0.9-pixel padding overshoots an output pixel edge by a known fraction of a pixel"""
+    rs, R = rng.choice([(10, 100), (5, 30), (20, 400), (50, 100), (10, 64), (25, 200), (16, 128)])
+    over = Fraction(9, 10) * rs / R                      # overshoot in output pixels when the footprint is aligned
+    tols = [t for t in (0.02, 0.05, 0.1, 0.2, 0.3, 0.45) if abs(Fraction(t).limit_denominator(1000) - over) >= Fraction(1, 100)]
+    m = R // rs if R % rs == 0 else None
+    nx, ny = (m * rng.choice([2, 3, 5]), m * rng.choice([1, 2, 4])) if m else (rng.choice([7, 12, 19]), rng.choice([5, 9]))
+    x0, y1 = R * rng.randint(4000, 4100), R * rng.randint(9000, 9100)
+    if k % 4 == 3:      # not aligned: shifted by a few source pixels
+        x0, y1 = x0 + rs * rng.choice([1, 2, 3]), y1 - rs * rng.choice([1, 2])
+    grids = [{"resolution": R, "tol": rng.choice(tols)}, {"resolution": R}, {"resolution": R, "tol": rng.choice(tols), "anchor": "center"},
+             {"resolution": R, "anchor": [0.25, 0.75], "tol": rng.choice(tols)}, {"resolution": R, "tight": True, "tol": rng.choice(tols)},
+             {"resolution": R, "anchor": "floating"}, {"shape": [rng.choice([3, 4]), rng.choice([5, 6])]},
+             {"shape": [4, 7], "tight": True}, {"resolution": "same", "anchor": "center", "tol": rng.choice(tols)},
+             {"resolution": R, "anchor": "edge", "tol": max(tols)}, {"resolution": R, "tol": min(tols), "round_resolution": True}]
+    return {"crs": rng.choice(["epsg:32633", "epsg:3857", "epsg:3577"]), "src_res": fr(rs), "x0": fr(x0),
+            "y1": fr(y1), "shape": [ny, nx], "dask": k % 3 == 2, "container": ["da", "ds"][k % 2], "grid": grids[k % len(grids)]}
+
+
 def p_reproject_covers(rc, gopts):
     """how = CRS: judged with pyproj called directly.  The centre of every source pixel, projected by a fresh
     pyproj Transformer (always_xy), must fall inside the extent of the GeoBox recovered from the output (one output
@@ -596,9 +762,7 @@ def p_reproject_covers(rc, gopts):
     import xarray as xr
     src, _ = build_reproject_case(rc)
     how = rc["dst"]["crs"]
-    kw = dict(gopts)
-    if "shape" in kw:
-        kw["shape"] = tuple(kw["shape"])
+    kw = decode_gopts(gopts)
     out = src.odc.reproject(how, **kw)
     tr = pyproj.Transformer.from_crs(rc["src"]["crs"].upper(), how.upper(), always_xy=True)
     a = [float(unfr(v)) for v in rc["src"]["affine"]]
@@ -647,6 +811,7 @@ PREDICATES = {
     "reproject_opts": lambda a: p_reproject_opts(a["rc"], a["grid"]),
     "reproject_covers": lambda a: p_reproject_covers(a["rc"], a["grid"]),
     "reproject_many_crs": lambda a: p_reproject_many_crs(a["n"], a["rounds"]),
+    "reproject_grid": lambda a: p_reproject_grid(a["case"]),
     "affine_axis": lambda a: p_affine_axis([unfr(v) for v in a["xs"]], [unfr(v) for v in a["ys"]]),
 }
 
@@ -945,8 +1110,9 @@ def gen_cases(out, tier):
         # wrap_xr
         s0 = S.snapshot(xx)
         user = S.snap_attrs(opts["user"])
-        add("wrap_xr", f"CWrap {cq(TOL)} {S.cbox(box)} {copt(opts['ntime'])} {copt(opts['nband'])} {copt(opts['nodata'], lambda v: cq(S.F(v)))} "
-            f"{copt(opts['name'], cstr)} {S.cattrs(user)} (Ok {S.cxobj(s0)})", (spec, str(opts)), True, sample)
+        if "axis" not in opts:   # the model's wrap_xr has no axis= parameter: explicit-axis wraps enter as snapshots only
+            add("wrap_xr", f"CWrap {cq(TOL)} {S.cbox(box)} {copt(opts['ntime'])} {copt(opts['nband'])} {copt(opts['nodata'], lambda v: cq(S.F(v)))} "
+                f"{copt(opts['name'], cstr)} {S.cattrs(user)} (Ok {S.cxobj(s0)})", (spec, str(opts)), True, sample)
         add("locate:fresh:" + spec["cls"], f"CLocate {cq(TOL)} {S.cxobj(s0)} {S.cgeostate(S.geostate_of(xx))}", ("fresh", spec, str(opts)))
         # history
         h = gen_history(rng, spec, opts)
@@ -1199,6 +1365,9 @@ def search(out, tier):
         if rc["dst"]["crs"] == rc["src"]["crs"]:
             rc["dst"]["crs"] = "epsg:3857" if rc["src"]["crs"] != "epsg:3857" else "epsg:4326"
         run("reproject_crs", {"rc": rc})
+    # every output-grid option in geometries where it matters, judged against the meaning of the option (Fractions)
+    for k in range(33 if quick else 220):
+        run("reproject_grid", {"case": gen_grid_case(rng, k)})
     # how = CRS with output-grid options, Dataset and DataArray, numpy and dask
     k = 0
     cross = []
@@ -1240,11 +1409,25 @@ def search(out, tier):
     hists = [["authority-order-first"], ["queries-first"], ["churn"], ["c09:many-destinations"],
              ["authority-order-first", "queries-first", "churn", "c09:many-destinations"]]
     jobs = []
+
+    def case_specs(rc):
+        """the CRS specs exactly as the case will hand them to odc.geo.crs (the caches are keyed by spec): the source
+        CRS arrives as the WKT stored in the array's CRS coordinate, the destination as the `how` string"""
+        out_ = [rc["dst"]["crs"]] + specs
+        try:
+            src_, _ = build_reproject_case(rc)
+            out_ = [c.attrs["spatial_ref"] for c in src_.coords.values() if c.ndim == 0 and "spatial_ref" in c.attrs][:1] + out_
+        except Exception:  # pylint: disable=broad-except
+            pass
+        return out_
+
+    # lon/lat sources into projected grids and back: the pairs whose authority axis order is not x,y
+    lonlat = [c for c in cross if "epsg:4326" in (c[0]["src"]["crs"], c[0]["dst"]["crs"])] or cross
     for hi, hist in enumerate(hists):
-        picks = [cross[(hi * 5 + j * 3) % len(cross)] for j in range(2 if quick else 6)] if cross else []
+        picks = [lonlat[(hi * 5 + j * 3) % len(lonlat)] for j in range(2 if quick else 6)] if lonlat else []
         for j, (rc, gopts) in enumerate(picks):
             name = "reproject_covers" if (hi + j) % 3 else "reproject_opts"
-            jobs.append({"hist": hist, "specs": specs, "name": name, "args": [{"rc": rc, "grid": gopts if j % 2 == 0 else {}}]})
+            jobs.append({"hist": hist, "specs": case_specs(rc), "name": name, "args": [{"rc": rc, "grid": gopts if j % 2 == 0 else {}}]})
     # a long-running process reprojecting into many CRSs (bounded caches, recycled object ids): self-contained, judged
     # with pyproj; in its own interpreter so that it starts from empty caches and runs beside the other children
     jobs.append({"hist": [], "specs": [], "name": "reproject_many_crs", "args": [{"n": 300 if quick else 400, "rounds": 1 if quick else 2}]})
